@@ -2,90 +2,14 @@ package client
 
 import (
 	"context"
-	"io"
-	"net"
-	"time"
 
 	"github.com/plgd-dev/go-coap/v3/message"
 	"github.com/plgd-dev/go-coap/v3/message/codes"
 	"github.com/plgd-dev/go-coap/v3/message/pool"
-	coapNet "github.com/plgd-dev/go-coap/v3/net"
-	"github.com/plgd-dev/go-coap/v3/net/responsewriter"
 )
 
 // C09 on the stream connection — the real Session.Run loop reads from an in-memory socket whose Read blocks until
 // the peer delivers a segment, half-closes, or the socket is closed locally.
-
-type zzPipe struct {
-	in      chan []byte
-	closedC chan struct{}
-	closed  bool
-	pending []byte
-	frames  [][]byte
-	closes  int
-}
-
-func zzNewPipe() *zzPipe {
-	return &zzPipe{in: make(chan []byte, 4), closedC: make(chan struct{})}
-}
-
-func (c *zzPipe) Read(b []byte) (int, error) {
-	if len(c.pending) == 0 {
-		select {
-		case seg, ok := <-c.in:
-			if !ok {
-				return 0, io.EOF // the peer closed its side
-			}
-			c.pending = seg
-		case <-c.closedC:
-			return 0, net.ErrClosed
-		}
-	}
-	n := copy(b, c.pending)
-	c.pending = c.pending[n:]
-	return n, nil
-}
-
-func (c *zzPipe) Write(b []byte) (int, error) {
-	if c.closed {
-		return 0, net.ErrClosed
-	}
-	c.frames = append(c.frames, append([]byte(nil), b...))
-	return len(b), nil
-}
-
-func (c *zzPipe) Close() error {
-	c.closes++
-	if c.closed {
-		return net.ErrClosed
-	}
-	c.closed = true
-	close(c.closedC)
-	return nil
-}
-func (c *zzPipe) LocalAddr() net.Addr                { return zzAddr{} }
-func (c *zzPipe) RemoteAddr() net.Addr               { return zzAddr{} }
-func (c *zzPipe) SetDeadline(t time.Time) error      { return nil }
-func (c *zzPipe) SetReadDeadline(t time.Time) error  { return nil }
-func (c *zzPipe) SetWriteDeadline(t time.Time) error { return nil }
-
-func zzNewPipeConn(nc *zzPipe) *Conn {
-	cfg := Config{}
-	cfg.Ctx = context.Background()
-	cfg.MaxMessageSize = 1152
-	cfg.MessagePool = pool.New(0, 1024)
-	cfg.Errors = func(error) {}
-	n := 0
-	cfg.GetToken = func() (message.Token, error) { n++; return message.Token{0xEE, byte(n)}, nil }
-	cfg.Handler = func(w *responsewriter.ResponseWriter[*Conn], r *pool.Message) {}
-	cfg.LimitClientParallelRequests = 4
-	cfg.LimitClientEndpointParallelRequests = 4
-	cfg.ReceivedMessageQueueSize = 2
-	cfg.ConnectionCacheSize = 64
-	cfg.DisableTCPSignalMessageCSM = true
-	cfg.CloseSocket = true
-	return NewConnWithOpts(coapNet.NewConn(nc), &cfg)
-}
 
 func zzC09_tcp() {
 	nc := zzNewPipe()
@@ -99,10 +23,16 @@ func zzC09_tcp() {
 		runDone = true
 	}()
 	op := symChoose("operation", 4)
-	stage := symChoose("stage", 2)
+	stage := symChoose("stage", 3)
 	end := symChoose("end", 5)
 	ctx, cancel := context.WithCancel(context.Background())
 	defer cancel()
+	// listed finding: a write that is stuck in the socket (stalled peer) is not interrupted by cancelling the
+	// operation's context - the stream connection sets no write deadline; only closing the connection ends it
+	symKnown("C09-stalled-write-ignores-cancel", stage == 2 && end == 0)
+	if stage == 2 {
+		nc.stalled = true
+	}
 	closers := 0
 	finish := func() {
 		switch end {
@@ -162,6 +92,13 @@ func zzC09_tcp() {
 		}
 		done = true
 	}()
+	if stage == 2 {
+		// half-open / stalled stream: the peer keeps the connection open but no longer reads
+		symIdle()
+		symAssert(!done, "the write is stuck in the socket")
+		symCover("write-stuck")
+		finish()
+	}
 	if stage == 1 {
 		symWaitUntil(func() bool { return len(nc.frames) >= 1 }) // the request is on the stream; the peer is silent
 		symIdle()
@@ -174,7 +111,7 @@ func zzC09_tcp() {
 	}
 	symWaitUntil(func() bool { return done })
 	symCover("returned")
-	if op != 3 || stage == 0 {
+	if op != 3 || stage != 1 {
 		symAssert(err != nil, "an operation that never got its answer returns an error")
 	}
 	// finally the connection is closed (again): idempotent, done signalled, callbacks ran exactly once
